@@ -13,7 +13,7 @@ import random
 
 import numpy as np
 
-from harness import convlib, core, layerlib
+from harness import convlib, core, equivcalc, layerlib
 
 
 def float_case(args):
@@ -113,11 +113,22 @@ def main(tier):
     modes = ["auto", "mean", "scalar", "true", "false"]
     combos = [(2, "B", "TORUS", 2), (2, "B", "SAME", 1), (2, "B", "UP", 1), (2, "ROT", "TORUS", 1), (2, "FLIP", "SAME", 1),
               (3, "B", "TORUS", 1), (3, "ROT", "SAME", 1), (2, "B", "MIXED", 1), (3, "B", "MIXED", 1)]
-    reps = 1 if tier == "quick" else 6
+    # ---- typing calculus: the bias branches of ConvContract as well-typed data-flow graphs, bound to the real layer ----
+    graphs = equivcalc.run_mc(chk)
+    summ = equivcalc.summarise(equivcalc.bind_all(graphs, tier, kinds=("conv",))) if graphs else {}
+    d = summ.get("conv", {"bound": [], "unbound": [[None, "no binding result"]]})
+    calc_unbound = bool(d["unbound"]) or not d["bound"]
+    if calc_unbound:
+        print("NOTE typing calculus not bound to ConvContract's bias branch on this tree (%s): the all-parameters argument is not "
+              "established for it; escalating the numerical equation test" % "; ".join("%s %s" % (t, w) for t, w in d["unbound"][:3]), flush=True)
+    chk.extra["typing_calculus"] = {"graphs_model_checked": len(graphs), "bound": d["bound"], "unbound": d["unbound"],
+                                    "meaning": "bound = output block = linear part + the well-typed bias graph of EquivCalculus.tla at generic "
+                                               "parameter values (the linear part itself is decided by the exact replay)"}
+    reps = (1 if tier == "quick" else 6) + (3 if calc_unbound else 0)
     for r in range(reps):
         for ci, (D, grp, conf, kcap) in enumerate(combos):
             for mi, mode in enumerate(modes):
-                if tier == "quick" and (ci + mi) % 2 == 1 and mode not in ("auto", "mean"):
+                if tier == "quick" and not calc_unbound and (ci + mi) % 2 == 1 and mode not in ("auto", "mean"):
                     continue
                 fitems.append((len(fitems), core.SEED * 7 + 31 * len(fitems) + r, D, grp, conf, mode, kcap))
     n_float = 0
